@@ -288,3 +288,48 @@ pub fn gen_aligned(out: &mut Out, rng: &mut Rng, thorough: bool, select: bool) {
         }
     }
 }
+
+// ---------------------------------------------------------------------------------------------
+// cross-validation of the SPECIFICATION side (Spec.Decode, Regions, BCH, mask conditions, Table 9, the segment
+// parser) against an independent encoder: symbols produced by the `qrcode` crate (single segment pushed through
+// its `Bits` API) must be decoded to the input by the Lean reference decoder. Nothing of fast_qr is involved.
+//   xref <hex> <ecl> <mode> <v> => ok <n> <0/1 per module> | skip
+pub fn xref_line(input: &[u8], e: usize, md: usize, v: usize) -> String {
+    use qrcode::bits::Bits;
+    use qrcode::{EcLevel, QrCode, Version as V};
+    let head = format!("xref {} {} {} {} => ", hex(input), e, md, v);
+    let ec = [EcLevel::L, EcLevel::M, EcLevel::Q, EcLevel::H][e];
+    let inp = input.to_vec();
+    let r = std::panic::catch_unwind(move || -> Option<(usize, String)> {
+        let mut bits = Bits::new(V::Normal((v + 1) as i16));
+        match md {
+            0 => bits.push_numeric_data(&inp).ok()?,
+            1 => bits.push_alphanumeric_data(&inp).ok()?,
+            _ => bits.push_byte_data(&inp).ok()?,
+        };
+        bits.push_terminator(ec).ok()?;
+        let code = QrCode::with_bits(bits, ec).ok()?;
+        let w = code.width();
+        let s: String = code.to_colors().iter().map(|c| if *c == qrcode::Color::Dark { '1' } else { '0' }).collect();
+        Some((w, s))
+    });
+    match r {
+        Ok(Some((w, s))) => format!("{}ok {} {}", head, w, s),
+        _ => format!("{}skip", head),
+    }
+}
+
+pub fn gen_xref(out: &mut Out, rng: &mut Rng, thorough: bool) {
+    let caps = crate::gen::caps();
+    for v in 0..40usize {
+        for e in 0..4usize {
+            if !thorough && (v + e) % 4 != 0 && v > 2 { continue; }
+            for md in 0..3usize {
+                let cap = caps[md][e][v];
+                let len = match (v + e + md) % 3 { 0 => cap, 1 => rng.range(0, cap), _ => cap.saturating_sub(1) };
+                let inp = crate::gen::content(rng, md, len);
+                out.job(move || xref_line(&inp, e, md, v));
+            }
+        }
+    }
+}
